@@ -31,9 +31,9 @@ ASSUMPTIONS = ["formal charges are the ones Mol2Atom.formal_charge reports (the 
                "radius tables: ZAP9 by Sybyl type then element, then Bondi (values copied from the cited papers into "
                "the harness)"]
 MIN = {"quick": {"molecules": 300, "conservation_checks": 300, "rename_pairs": 250, "permutation_pairs": 250,
-                 "complex_runs": 25, "complex_pka_route_runs": 3, "complex_ligand_serials_repeat": 5},
+                 "complex_runs": 25, "complex_pka_route_runs": 3, "complex_ligand_serials_repeat": 5, "complex_assign_only_refeeds": 3},
        "thorough": {"molecules": 12000, "conservation_checks": 12000, "rename_pairs": 10000,
-                    "permutation_pairs": 10000, "complex_runs": 900, "complex_pka_route_runs": 100, "complex_ligand_serials_repeat": 200}}
+                    "permutation_pairs": 10000, "complex_runs": 900, "complex_pka_route_runs": 100, "complex_ligand_serials_repeat": 200, "complex_assign_only_refeeds": 100}}
 
 ZAP9 = {"C": 1.87, "H": 1.10, "O.co2": 1.76, "N": 1.40, "S": 2.15, "F": 2.40, "Cl": 1.82, "I": 2.65}
 BONDI = {"H": 1.20, "He": 1.40, "C": 1.70, "N": 1.55, "O": 1.52, "F": 1.47, "Ne": 1.54, "Si": 2.10, "P": 1.80,
@@ -278,8 +278,20 @@ def run_complex(spec, res):
         # the pKa route strips and rebuilds hydrogens: the ligand's own hydrogens must survive it
         opts += pkastub.titration_opts(rng)
         res.count("complex_pka_route_runs")
+    # a share of the plain complexes is also re-fed: the run's own --pdb-output (complete, protonated) goes through
+    # --assign-only --ligand, where the ligand must get the very same parameters
+    refeed = variant in ("plain", "ions", "nocollide", "waterH") and "--titration-state-method=propka" not in opts \
+        and rng.random() < 0.6
+    full = None
     with pkastub.for_opts(opts, truth, spec["seed"]):
-        r = pipeline.run(text, opts, extra_files={"lig.mol2": lig_text}, workname="c16")
+        r = pipeline.run(text, opts + (["--pdb-output={dir}/full.pdb"] if refeed else []),
+                         extra_files={"lig.mol2": lig_text}, workname="c16", keep=refeed)
+    if refeed:
+        try:
+            if r.ok and (r.dir / "full.pdb").exists():
+                full = (r.dir / "full.pdb").read_text()
+        finally:
+            r.cleanup()
     lig_names = set(lp["names"])
     water_collision = bool(lig_names & {"O", "H1", "H2"})
     feature = "ligand-residue-name-known-to-force-field" if variant == "ffresname" else \
@@ -308,6 +320,25 @@ def run_complex(spec, res):
             res.violate(f"complex/ligand-params/{feature}", f"ligand atom {a['name']} written with q={a['q']} "
                         f"r={a['r']}, ligand parameters are {qr[a['name']]}", **wit)
             break
+    if full is not None:
+        r2 = pipeline.run(full, [f"--ff={ff}", "--assign-only", "--ligand={dir}/lig.mol2"], extra_files={"lig.mol2": lig_text},
+                          workname="c16")
+        res.count("complex_assign_only_refeeds")
+        if not r2.ok:
+            msg = " | ".join(m for lv, _n, m in r2.log if lv >= 40)[:300]
+            res.violate(f"complex/assign-only-refeed-fails/{feature}", f"--assign-only --ligand on the run's own "
+                        f"--pdb-output fails: {type(r2.exc).__name__} {msg}", **wit)
+        else:
+            lig2 = [a for a in pipeline.parse_pqr(r2.pqr_text) if a["resn"] == lig_resn]
+            got2 = Counter(a["name"] for a in lig2)
+            if got2 != want:
+                res.violate(f"complex/assign-only/ligand-atoms-written/{feature}", f"--assign-only: ligand atoms written "
+                            f"{dict(got2 - want)} extra, {dict(want - got2)} missing", **wit)
+            for a in lig2:
+                if a["name"] in qr and (abs(a["q"] - qr[a["name"]][0]) > 0.00006 or abs(a["r"] - qr[a["name"]][1]) > 0.00006):
+                    res.violate(f"complex/assign-only/ligand-params/{feature}", f"--assign-only: ligand atom {a['name']} "
+                                f"written with q={a['q']} r={a['r']}, ligand parameters are {qr[a['name']]}", **wit)
+                    break
     # differential: the same complex without --ligand - every non-ligand atom must be untouched by the ligand
     with pkastub.for_opts(opts, truth, spec["seed"]):
         r0 = pipeline.run(text, [o for o in opts if not o.startswith("--ligand")], workname="c16")
